@@ -9,8 +9,15 @@ terms on every run.  Two kinds of obligations:
      and an arbitrary byte, yields the state of the reference's MSB-first step (and stays in
      range); the epilogue, from an arbitrary in-range state, returns the reference's final
      value.  Together: equality with the reference for byte strings of any length.
-(ii) whole function ("<fn>/whole/N"): the function unrolled on N symbolic bytes equals the
-     reference for all 256^N inputs: crc16 N <= 4 (quick) / N <= 8 (thorough); crc64 N <= 1 /
+     The RESULT LAYOUT is part of every claim: crc16 must return exactly two big-endian bytes
+     for every register value (also with a zero high byte, also for the empty input), crc64
+     exactly two halves below 2^32.  The return expression is translated with shape forking (a
+     bytify-style `while n:` yields one path per length and the short ones fail the claim); if
+     it is not translatable the epilogue is executed concretely on all 65 536 register values
+     (crc16) and the real function is probed on solver-chosen inputs with zero bytes -- an
+     untranslatable return never passes silently (violation, or INCONCLUSIVE).
+(ii) whole function ("<fn>/whole/N", N from 0): the function unrolled on N symbolic bytes
+     equals the reference in value and layout for all 256^N inputs: crc16 N <= 4 (quick) / N <= 8 (thorough); crc64 N <= 1 /
      N <= 2 only -- the XOR-heavy 64-bit equivalence is not decided by z3 beyond that (measured:
      N = 2 takes 14-40 s, N = 3 and 4 `unknown` at 120 s); for crc64 the any-length claim rests
      on the step obligation.  Thorough: an `unsat` sample is re-decided by cvc5 and z3 4.8.12.
@@ -120,58 +127,151 @@ def interp(sess, sp):
     return sess.interp(num="bv", bvw=sp["bvw"], intrinsics={struct.pack: pack_model})
 
 
+def normalize(res):
+    """concrete bytes / bytearray results become the list model"""
+    return list(res) if isinstance(res, (bytes, bytearray)) else res
+
+
 def result_as_bv(sp, res):
-    """the function result as one BitVec(width) (so that it can be compared with the reference)"""
-    if sp["fn"] == "crc16":
-        if not isinstance(res, list) or len(res) != 2:
-            raise A.Unsupported("crc16 result shape %r" % (type(res),))
-        parts = [(res[0], 8), (res[1], 8)]
-    else:
-        if not isinstance(res, tuple) or len(res) != 2:
-            raise A.Unsupported("crc64 result shape %r" % (type(res),))
-        parts = [(res[0], 32), (res[1], 32)]
+    """(the function result as one BitVec(width), condition that it has the required layout).
+    Layout is part of the claim: crc16 must be EXACTLY two bytes (big-endian, also when the high byte is
+    zero and for the empty input), crc64 exactly two halves below 2^32.  A result of any other shape
+    yields (None, False): the claim fails on that shape path and the model is replayed on the real code."""
+    res = normalize(res)
+    k = 8 if sp["fn"] == "crc16" else 32
+    if not isinstance(res, (list, tuple)) or len(res) != 2 or any(isinstance(v, bool) or not (A.is_sym(v) or isinstance(v, int))
+                                                                  for v in res):
+        return None, z3.BoolVal(False)
     terms, inrange = [], []
-    for v, k in parts:
+    for v in res:
+        if A.is_sym(v) and not z3.is_bv(v):
+            return None, z3.BoolVal(False)
         v = v if A.is_sym(v) else z3.BitVecVal(v, sp["bvw"])
         inrange.append(z3.And(v >= 0, z3.ULT(v, 1 << k)))
         terms.append(z3.Extract(k - 1, 0, v))
     return z3.Concat(*terms), z3.And(*inrange)
 
 
+def claim_of(sp, res, want):
+    """claim and deliberately wrong twin for one result (of one shape path) against reference value `want`"""
+    out, ok = result_as_bv(sp, res)
+    if out is None:
+        return z3.BoolVal(False), None
+    return z3.And(ok, out == want), z3.And(ok, out == (want ^ 1))
+
+
 def translate_whole(sess, sp, n):
+    """shape paths of the whole function on n symbolic bytes (the return expression may fork, e.g. a
+    bytify-style `while n:`); returns (byte variables, [Path])"""
     fn = getattr(checking, sp["fn"])
     bs = [z3.BitVec("b%d" % i, 8) for i in range(n)]
-    I = interp(sess, sp)
-    res = I.call(fn, [[z3.ZeroExt(sp["bvw"] - 8, b) for b in bs]])
-    return bs, res, I
+    paths = A.explore(lambda: interp(sess, sp),
+                      lambda I: normalize(I.call(fn, [[z3.ZeroExt(sp["bvw"] - 8, b) for b in bs]])))
+    for p in paths:
+        sess.absorb(p.interp)
+    return bs, paths
 
 
 KEY = "C41/%s/differs-from-%s"
 
 
-def whole_query(sess, which, n, what):
-    """prove result == reference for all n-byte inputs; returns the status"""
+def differing_input(sess, sp, n):
+    """an n-byte input on which the translated function differs from the reference (value or layout), or None"""
+    bs, paths = translate_whole(sess, sp, n)
+    for p in paths:
+        claim, _ = claim_of(sp, p.result, ref_whole(sp, bs))
+        r, m, _ = sess.check(*(p.assume + p.interp.defs + [z3.Not(claim)]))
+        if r == "sat":
+            return bytes(A.model_value(m, b) & 0xff for b in bs)
+    return None
+
+
+def describe(which, data):
     sp = SPEC[which]
-    bs, res, I = translate_whole(sess, sp, n)
-    out, inrange = result_as_bv(sp, res)
-    paths = [A.Path([], res, I)]
-    sess.absorb(I)
+    try:
+        got = real_result(which, data)
+    except Exception as e:
+        got = "raised %r" % (e,)
+    return "%s(bytes.fromhex('%s')) -> %s, %s is %s" % (which, bytes(data).hex(), got, sp["name"], expected_result(which, data))
+
+
+def probe_real(sess, which, n):
+    """fallback when the return expression is not translatable: run the REAL function on inputs chosen
+    (by the solver, on the reference) to have a zero high byte / zero low byte / small halves, plus seeded
+    random ones.  A mismatch is reported (replayable); no mismatch proves nothing (caller stays inconclusive)."""
+    sp = SPEC[which]
+    w = sp["width"]
+    bs = [z3.BitVec("b%d" % i, 8) for i in range(n)]
+    ref = ref_whole(sp, bs)
+    half = w // 2
+    targets = [z3.Extract(w - 1, w - 8, ref) == 0, z3.Extract(7, 0, ref) == 0, z3.Extract(w - 1, half, ref) == 0,
+               z3.Extract(half - 1, half - 8, ref) == 0, z3.Extract(half + 7, half, ref) == 0]
+    r = A.rng(sess.params, 410 + n)
+    cands = [bytes(r.randrange(256) for _ in range(n)) for _ in range(64)] + [bytes(n), bytes([255] * n)]
+    sess.solver.set("timeout", 5000)
+    try:
+        for t in targets if n else []:
+            rr, m, _ = sess.check(t)
+            if rr == "sat":
+                cands.append(bytes(A.model_value(m, b) & 0xff for b in bs))
+    finally:
+        sess.solver.set("timeout", sess.timeout_ms)
+    for data in cands:
+        try:
+            bad = real_result(which, data) != expected_result(which, data)
+        except Exception:
+            bad = True
+        if bad:
+            sess.res["paths"] += 1
+            sess.fail(KEY % (which, sp["name"]), {"fn": which, "data": data.hex()}, describe(which, data))
+            return True
+    return False
+
+
+def whole_query(sess, which, n, what):
+    """prove result == reference (value AND layout) for all n-byte inputs"""
+    sp = SPEC[which]
+    key = KEY % (which, sp["name"])
+    if n == 0:
+        # the domain has one element: decided by running the real function (the translation below is
+        # still required to agree with it)
+        sess.res["paths"] += 1
+        try:
+            same = real_result(which, b"") == expected_result(which, b"")
+        except Exception:
+            same = False
+        if same:
+            sess.res["confirmed"] += 1
+        else:
+            sess.fail(key, {"fn": which, "data": ""}, describe(which, b""))
+    try:
+        bs, paths = translate_whole(sess, sp, n)
+    except A.Unsupported:
+        if not probe_real(sess, which, n):
+            raise
+        return
     # translator validation: catalogue-style and seeded random vectors of this length
     r = A.rng(sess.params, n)
     cases = [tuple(b"123456789"[:n]), tuple([0] * n), tuple([255] * n)] + \
             [tuple(r.randrange(256) for _ in range(n)) for _ in range(12)]
     sess.validate("%s on %d bytes" % (which, n), paths, bs, cases, lambda *c: real_result(which, c))
-    wrong = ref_whole(sp, bs, poly=sp["poly"] ^ 2) if n else ref_whole(sp, bs) ^ 1
+    if not sess.prove_exhaustive(paths, what):
+        return
 
     def vals(m):
         return {"fn": which, "data": bytes(A.model_value(m, b) & 0xff for b in bs).hex()}
 
     def detail(m, v):
-        d = bytes.fromhex(v["data"])
-        return "%s(%s) -> %s, %s is %s" % (which, v["data"], real_result(which, d), sp["name"], expected_result(which, d))
+        return describe(which, bytes.fromhex(v["data"]))
 
-    return sess.prove(KEY % (which, sp["name"]), z3.And(inrange, out == ref_whole(sp, bs)),
-                      side=I.side, wrong=z3.And(inrange, out == wrong), vals=vals, detail=detail, what=what)
+    for p in paths:
+        claim, wrong = claim_of(sp, p.result, ref_whole(sp, bs))
+        if wrong is not None and n:
+            _, ok = result_as_bv(sp, p.result)
+            out, _ = result_as_bv(sp, p.result)
+            wrong = z3.And(ok, out == ref_whole(sp, bs, poly=sp["poly"] ^ 2))
+        sess.prove(key, claim, assume=p.assume, defs=p.interp.defs, side=p.interp.side, wrong=wrong,
+                   vals=vals, detail=detail, what=what)
 
 
 def ob_whole(sess, params):
@@ -205,19 +305,18 @@ def ob_step(sess, params):
 
     def concretize(_m):
         # a step counterexample speaks about an arbitrary state; turn it into a real input: search a
-        # whole input of 1, 2, 3 and (register bytes + 1) bytes on which the function differs
+        # whole input of 0, 1, 2, 3 and (register bytes + 1) bytes on which the function differs
         sess.solver.set("timeout", 30000)
         try:
-            for n in sorted({1, 2, 3, sp["width"] // 8 + 1}):
-                bs, res, I = translate_whole(sess, sp, n)
-                out, inrange = result_as_bv(sp, res)
-                r, m, _ = sess.check(z3.Not(z3.And(inrange, out == ref_whole(sp, bs))))
-                if r == "sat":
-                    data = bytes(A.model_value(m, b) & 0xff for b in bs)
-                    if real_result(which, data) != expected_result(which, data):
-                        return ({"fn": which, "data": data.hex()},
-                                "%s(%s) -> %s, %s is %s" % (which, data.hex(), real_result(which, data), sp["name"],
-                                                            expected_result(which, data)))
+            for n in sorted({0, 1, 2, 3, sp["width"] // 8 + 1}):
+                data = differing_input(sess, sp, n)
+                if data is not None:
+                    try:
+                        bad = real_result(which, data) != expected_result(which, data)
+                    except Exception:
+                        bad = True
+                    if bad:
+                        return ({"fn": which, "data": data.hex()}, describe(which, data))
             return None
         finally:
             sess.solver.set("timeout", sess.timeout_ms)
@@ -267,20 +366,92 @@ def ob_step(sess, params):
     sess.prove(key, z3.And(post_ok, post == want), side=I1.side, wrong=post == (want ^ 1),
                concretize=concretize, what="step: loop body from an arbitrary state")
 
-    # (c) epilogue from an arbitrary in-range state
-    I2 = interp(sess, sp)
-    env = dict(env0)
-    for v, k in sp["state"]:
-        env[v] = z3.ZeroExt(W - k, svars[v])
-    pre, _ = as_ref(env)
-    st2 = I2.exec_block(epilogue, env, g, fn)
-    if st2["retc"] is not True:
-        raise A.Unsupported("epilogue of %s does not return" % which)
-    out, out_ok = result_as_bv(sp, st2["ret"])
+    # (c) epilogue from an arbitrary in-range state: value AND layout of the result (exactly two
+    #     big-endian bytes / two 32-bit halves for EVERY register value); the return expression may fork
+    def sym_env():
+        env = dict(env0)
+        for v, k in sp["state"]:
+            env[v] = z3.ZeroExt(W - k, svars[v])
+        return env
+
+    pre, _ = as_ref(sym_env())
     want = pre ^ z3.BitVecVal(sp["xorout"], sp["width"])
-    sess.prove(key, z3.And(out_ok, out == want), side=I2.side, wrong=out == (want ^ 1),
-               concretize=concretize, what="step: final xor / result layout")
+
+    def thunk(I):
+        st2 = I.exec_block(epilogue, sym_env(), g, fn)
+        if st2["retc"] is not True:
+            raise A.Unsupported("epilogue of %s does not return" % which)
+        return normalize(st2["ret"])
+
+    try:
+        paths = A.explore(lambda: interp(sess, sp), thunk)
+    except A.Unsupported as e:
+        epilogue_concrete(sess, sp, which, fn, epilogue, env0, g, key, concretize, str(e))
+        paths = []
+    if paths and sess.prove_exhaustive(paths, "step: epilogue"):
+        for p in paths:
+            claim, wrong = claim_of(sp, p.result, want)
+            sess.prove(key, claim, assume=p.assume, defs=p.interp.defs, side=p.interp.side, wrong=wrong,
+                       concretize=concretize, what="step: final xor / result layout")
     sess.res["extra"]["state"] = state
+
+
+def epilogue_concrete(sess, sp, which, fn, epilogue, env0, g, key, concretize, why):
+    """the return expression is outside the translated subset: execute the epilogue CONCRETELY (the
+    interpreter then calls the real callees) on every register value when there are <= 2^16 of them,
+    else on values with zero / small halves and seeded random ones.  A mismatch is concretised to a real
+    input and reported.  Exhaustive enumeration decides the sub-claim; a sample leaves it inconclusive."""
+    w = sp["width"]
+    r = A.rng(sess.params, 411)
+    if w <= 16:
+        states, exhaustive = range(1 << w), True
+    else:
+        states = [0, 1, 255, 256, (1 << 32) - 1, 1 << 32, (1 << 32) + 1, 0xff << 32, (1 << w) - 1] + \
+                 [r.getrandbits(w) for _ in range(2000)] + [r.getrandbits(32) for _ in range(200)] + \
+                 [r.getrandbits(32) << 32 for _ in range(200)]
+        exhaustive = False
+    xor = sp["xorout"]
+    sess.res["paths"] += 1
+    for sv in states:
+        env = dict(env0)
+        rest = sv
+        for v, k in reversed(sp["state"]):
+            env[v] = rest & ((1 << k) - 1)
+            rest >>= k
+        I = A.Interp(num="bv", bvw=sp["bvw"])
+        try:
+            st = I.exec_block(epilogue, env, g, fn)
+            got = normalize(st["ret"]) if st["retc"] is True else None
+            got = list(got) if isinstance(got, (list, tuple)) else got
+        except A.PyRaise:
+            got = None
+        fin = sv ^ xor
+        exp = [fin >> 8, fin & 0xff] if w == 16 else [fin >> 32, fin & 0xffffffff]
+        if got != exp:
+            c = concretize(None)
+            if c is None:
+                # the whole function is not translatable either: find an input reaching this register on the reference
+                n = w // 8
+                bs = [z3.BitVec("b%d" % i, 8) for i in range(n)]
+                rr, m, _ = sess.check(ref_whole(sp, bs) == z3.BitVecVal(fin, w))
+                if rr == "sat":
+                    data = bytes(A.model_value(m, b) & 0xff for b in bs)
+                    try:
+                        bad = real_result(which, data) != expected_result(which, data)
+                    except Exception:
+                        bad = True
+                    if bad:
+                        c = ({"fn": which, "data": data.hex()}, describe(which, data))
+            if c is None:
+                sess.inconclusive("epilogue of %s yields %r for register %#x (expected %r) but no failing input was found" % (which, got, sv, exp))
+            else:
+                sess.fail(key, c[0], c[1])
+            return
+    if exhaustive:
+        sess.res["confirmed"] += 1
+        sess.note("epilogue of %s not translatable (%s): decided by concrete execution on all %d register values" % (which, why, 1 << w))
+    else:
+        sess.inconclusive("epilogue of %s not translatable (%s); %d sampled register values agree" % (which, why, len(states)))
 
 
 def ob_check_value(sess, params):
@@ -289,20 +460,24 @@ def ob_check_value(sess, params):
     which = params["fn"]
     sp = SPEC[which]
     data = b"123456789"
-    bs, res, I = translate_whole(sess, sp, 9)
-    sess.absorb(I)
-    sess.validate("%s check string" % which, [A.Path([], res, I)], bs, [tuple(data)], lambda *c: real_result(which, c))
+    bs = [z3.BitVec("b%d" % i, 8) for i in range(9)]
     refv = z3.simplify(z3.substitute(ref_whole(sp, bs), *[(b, z3.BitVecVal(c, 8)) for b, c in zip(bs, data)]))
     tab = table_crc(data, sp["width"], sp["poly"], sp["init"], sp["xorout"])
     if refv.as_long() != sp["check"] or tab != sp["check"]:
         raise A.TranslationMismatch("reference for %s does not reproduce the catalogue check value" % sp["name"])
     sess.res["validated"] += 2
     sess.res["paths"] += 1
-    if real_result(which, data) == expected_result(which, data):
+    try:
+        same = real_result(which, data) == expected_result(which, data)
+    except Exception:
+        same = False
+    if same:
         sess.res["confirmed"] += 1
     else:
         sess.fail(KEY % (which, sp["name"]), {"fn": which, "data": data.hex()},
-                  "%s(b'123456789') -> %s, catalogue check value %#x" % (which, real_result(which, data), sp["check"]))
+                  describe(which, data) + " (catalogue check value %#x)" % sp["check"])
+    bs, paths = translate_whole(sess, sp, 9)
+    sess.validate("%s check string" % which, paths, bs, [tuple(data)], lambda *c: real_result(which, c))
 
 
 def replay(vals, params):
